@@ -36,6 +36,8 @@ fn handler(op: &str) -> Option<Handler> {
         "RT" => Some(ops_types::rt_handler),
         "DT" => Some(ops_types::dt_handler),
         "PFX" => Some(ops_types::pfx_handler),
+        "AIT" => Some(ops_types::ait_handler),
+        "MIT" => Some(ops_types::mit_handler),
         "SINK" => Some(ops_sink::sink_handler),
         "SINKE" => Some(ops_sink::sinke_handler),
         "IANA" => Some(ops_iana::iana_handler),
